@@ -11,26 +11,7 @@ from props.c08 import client_frames
 B = wire.build_frame
 
 
-def extension_header(cfg, sp):
-    """Spell the negotiated parameters as a Sec-WebSocket-Extensions value."""
-    params = []
-    q = '"' if sp.get("quote") else ""
-    if not (cfg["sb"] == 15 and sp.get("omit_default")):
-        params.append("server_max_window_bits%s=%s%s%s%s" % (sp.get("eq_l", ""), sp.get("eq_r", ""), q, cfg["sb"], q))
-    if not (cfg["cb"] == 15 and sp.get("omit_default")):
-        params.append("client_max_window_bits%s=%s%s%s%s" % (sp.get("eq_l", ""), sp.get("eq_r", ""), q, cfg["cb"], q))
-    if cfg["snct"]:
-        params.append("server_no_context_takeover")
-    if cfg["cnct"]:
-        params.append("client_no_context_takeover")
-    order = sp.get("order", 0)
-    if params:
-        k = order % len(params)
-        params = params[k:] + params[:k]
-        if (order // 7) % 2:
-            params.reverse()
-    sep = sp.get("semi_l", "") + ";" + sp.get("semi_r", " ")
-    return sep.join(["permessage-deflate"] + params)
+extension_header = deflateref.extension_header
 
 
 def payload_bytes(spec, history):
